@@ -40,7 +40,7 @@ MIN_EVENTS = {
 
 BASE = (
     '@charset "utf-8";\n@import "i.css" print, tv;\n@namespace n1 "urn:n1";\n@namespace "urn:d";\n/*c*/\n@variables{v1:red;v2:1px}\n'
-    'n1|a, b > c, *|d[n1|x] {top:0;left:1px !important;color:red;color:green}\n'
+    'n1|a, b > c, *|d[n1|x] {top:0;left:1px !important;color:red;color:green;b\\ottom:2px !important}\n'
     '@media print, screen {m1{top:0} @media tv{m2{left:0}} n1|m3{right:0}}\n'
     '@page :first {margin:1cm; @top-left{content:"x";color:red} @bottom-center{content:"y"}}\n'
     '@font-face{font-family:f1;src:url(f.woff)}\n@unk1 x {y}\n'
@@ -240,6 +240,12 @@ def mutators(c):
         add('%s CSSStyleDeclaration[]=' % label, locate, lambda t, a: t.__setitem__(a[0], a[1]), [((n, v), 'mixed') for n, _ in NAMES[:3] for v, _ in VALUES])
     prop = lambda s: (find(s, 'CSSStyleRule'), find(s, 'CSSStyleRule').style.getProperties(all=True)[1])  # noqa: E731
     add('Property.cssText', prop, setter('cssText'), PROPTEXTS)
+    # a property whose name was written with an escape (name and literal name differ)
+    prop_esc = lambda s: (find(s, 'CSSStyleRule'), [p for p in find(s, 'CSSStyleRule').style.getProperties(all=True) if '\\' in p.literalname][0])  # noqa: E731
+    add('Property.cssText (escaped name)', prop_esc, setter('cssText'), PROPTEXTS)
+    add('Property.value (escaped name)', prop_esc, setter('value'), VALUES)
+    add('Property.priority (escaped name)', prop_esc, setter('priority'), PRIOS)
+    add('Property.name (escaped name)', prop_esc, setter('name'), NAMES)
     add('Property.name', prop, setter('name'), NAMES)
     add('Property.value', prop, setter('value'), VALUES)
     add('Property.priority', prop, setter('priority'), PRIOS)
